@@ -6,6 +6,11 @@ import json, os, shutil, subprocess, sys
 pid = sys.argv[1]
 src = '/tmp/seed/%s-out' % pid
 wt = '/tmp/seedverify'
+head = subprocess.run(['git', '-C', '/repo', 'rev-parse', 'HEAD'], capture_output=True, text=True, check=True).stdout.strip()
+if not os.path.isdir(wt):
+    subprocess.run(['git', '-C', '/repo', 'worktree', 'add', '--detach', '-q', wt, head], check=True)
+subprocess.run(['git', '-C', wt, 'checkout', '-q', '--', '.'], check=True)
+subprocess.run(['git', '-C', wt, 'checkout', '-q', '--detach', head], check=True)
 for i in (1, 2, 3):
     diff = os.path.join(src, 'change%d.diff' % i)
     if not os.path.exists(diff):
